@@ -51,6 +51,7 @@ type Fault struct {
 	Kind string `json:"kind"` // see fault.go
 	At   int    `json:"at,omitempty"`
 	Val  int    `json:"val,omitempty"`
+	Data []byte `json:"data,omitempty"` // replace / splice
 }
 
 type Client struct {
